@@ -45,7 +45,7 @@ class C19(Check):
     required_probes = {'thorough': ['grew', 'alloc', 'bounded_refused', 'query_after_growth', 'ulp_query']}
 
     def strata(self, tier):
-        return [('S-grow', 5), ('S-bounded', 2), ('S-dup-times', 1), ('S-alloc-fault', 2)]
+        return [('S-grow', 5), ('S-bounded', 2), ('S-dup-times', 1), ('S-alloc-fault', 2), ('S-bad-update', 1)]
 
     # ---------------------------------------------------------------- generation
     def generate(self, rng, stratum, tier):
@@ -61,7 +61,8 @@ class C19(Check):
             cfg['max_steps'] = rng.choice([0, 1, 2, 3, 5, 8])
         if stratum == 'S-alloc-fault':
             cfg['cap'] = rng.choice([1, 2, 3, 4])
-            cfg['alloc'] = {'at_grow': rng.randint(1, 4), 'phase': rng.choice(['before', 'after'])}
+            cfg['alloc'] = {'at_grow': rng.randint(1, 4), 'phase': rng.choice(['before', 'after', 'line', 'line']),
+                            'line': rng.randint(1, 6)}
         nops = rng.randint(3, 200 if tier == 'thorough' else 80)
         ts = [cfg['t0']]
         qs = []
@@ -77,6 +78,10 @@ class C19(Check):
                 t = ts[-1] + step
                 if t <= ts[-1]:
                     t = math.nextafter(ts[-1], math.inf)
+                if stratum in ('S-alloc-fault', 'S-bad-update') and rng.random() < (0.25 if stratum == 'S-bad-update' else 0.08):
+                    # an update that must be REFUSED (unusable time or state argument): it raises and changes nothing
+                    ops.append(['ubad', t, _vec(rng, shape, dtype), rng.choice(['none', 'str', 'arr2', 'badshape', 'badshape'])])
+                    continue
                 ops.append(['u', t, _vec(rng, shape, dtype), rng.random() < 0.6])
                 ts.append(t)   # generator's belief; the executor keeps the authoritative record list
             else:
@@ -130,6 +135,11 @@ class C19(Check):
         growths = [0]
         alloc = cfg.get('alloc')
 
+        import sys as _sys
+
+        class Interrupted(BaseException):
+            pass
+
         class H(DDEHistory):
             _INITIAL_CAPACITY = cfg['cap']
 
@@ -137,6 +147,30 @@ class C19(Check):
                 growths[0] += 1
                 bump(probes, 'grew')
                 if alloc and growths[0] == alloc['at_grow']:
+                    if alloc['phase'] == 'line':
+                        # interruption at the k-th source line INSIDE the real _grow (sys.settrace line events)
+                        target = DDEHistory._grow.__code__
+                        state = {'n': 0}
+
+                        def local(frame, event, arg):
+                            if event == 'line':
+                                state['n'] += 1
+                                if state['n'] == alloc['line']:
+                                    _sys.settrace(None)
+                                    bump(faults, 'alloc_line')
+                                    raise Interrupted(f'injected interruption at line {alloc["line"]} of _grow')
+                            return local
+
+                        def tracer(frame, event, arg):
+                            if event == 'call' and frame.f_code is target:
+                                return local
+                            return None
+                        _sys.settrace(tracer)
+                        try:
+                            DDEHistory._grow(self)
+                        finally:
+                            _sys.settrace(None)
+                        return
                     bump(faults, 'alloc')
                     if alloc['phase'] == 'after':
                         DDEHistory._grow(self)
@@ -220,6 +254,17 @@ class C19(Check):
                 try:
                     h.update(t, y)
                     raised = None
+                except Interrupted as e:
+                    # the update was interrupted inside _grow: it must not be half-applied, all earlier records intact
+                    sweep(opi, 'after-interrupted-growth')
+                    # the same update is retried (like a solver step repeated after Ctrl-C was handled)
+                    try:
+                        h.update(t, y)
+                    except Exception as e2:
+                        viol.append({'law': 'L-update', 'cls': 'loud', 'key': 'retry-after-interrupt',
+                                     'detail': f'op {opi}: update({t!r}) retried after an interrupted growth raised {type(e2).__name__}: {e2}'})
+                        break
+                    raised = None
                 except (IndexError, MemoryError) as e:
                     raised = e
                 except Exception as e:
@@ -256,6 +301,33 @@ class C19(Check):
                         sweep(opi, 'after-growth')
                     else:
                         check_query(t, opi, 'post-update')
+            elif op[0] == 'ubad':
+                _, t, flat, how = op
+                if t < ref_t[-1] or (bounded and len(ref_t) >= capacity):
+                    continue
+                y = arr(flat)
+                targ = t
+                if how == 'none':
+                    targ = None
+                elif how == 'str':
+                    targ = 'soon'
+                elif how == 'arr2':
+                    targ = np.array([t, t])
+                elif how == 'badshape':
+                    y = np.zeros(tuple(shape) + (2,)) if shape else np.zeros((2,))
+                bump(probes, 'bad_update')
+                try:
+                    h.update(targ, y)
+                    viol.append({'law': 'L-update', 'cls': 'silent', 'key': 'bad-update-accepted',
+                                 'detail': f'op {opi}: update with unusable argument ({how}) was accepted'})
+                    break
+                except (Exception, Interrupted):
+                    bump(faults, 'bad_update')
+                # a refused update changes nothing: every record and the end values are as before
+                sweep(opi, f'after-refused-update({how})')
+                if not viol:
+                    check_query(ref_t[-1] + 1.0, opi, f'after-refused-update({how}):beyond')
+                    check_query(t, opi, f'after-refused-update({how}):at-refused-time')
             else:
                 t = op[1]
                 kind = check_query(t, opi, 'query')
